@@ -3,13 +3,13 @@ import Driver.Util
 /-! Line-protocol driver for the `Executor` model (C04).
 
     exec <dd:0|1> <dflt:idx|-> <tasks|-> <req|->
-      tasks = `;`-separated, task number i is the i-th entry: `cls:pre:post`
+      tasks = `;`-separated, task number i is the i-th entry: `cls:key:pre:post`
       pre/post = `,`-separated calls `idx/pos/kw` (may only refer to EARLIER tasks)
       pos = `+`-separated values, kw = `+`-separated `name=value`
       value = `i<int>` | `s<char codes>`; name = char codes (decimal, `.`-separated)
       req = `,`-separated `idx/kw`
     answer: `<log> | <results> | <hyp>` with log = `,`-separated `id/pos/kw` (kw sorted by name),
-      results = `,`-separated `id=index`, hyp = 1 iff the decidable hypotheses of
+      results = `,`-separated `key=index`, hyp = 1 iff the decidable hypotheses of
       `effective_args_dedupe_partial` hold for the expansion -/
 open Inv.Exec Drv
 
@@ -36,11 +36,12 @@ def decCalls (built : Array TaskT) (s : String) : Option (List CallT) :=
 def decTasks (s : String) : Option (Array TaskT) :=
   (splitNE s ";").foldlM (fun (built : Array TaskT) e =>
     match e.splitOn ":" with
-    | [c, pre, post] => do
+    | [c, k, pre, post] => do
       let cls ← c.toNat?
+      let key ← k.toNat?
       let p ← decCalls built pre
       let q ← decCalls built post
-      pure (built.push (.mk built.size cls p q))
+      pure (built.push (.mk built.size key cls p q))
     | _ => none) #[]
 
 def decReq (built : Array TaskT) (s : String) : Option (List (TaskT × KW)) :=
